@@ -45,7 +45,9 @@ pub fn files_rec(dir: &Path) -> Vec<String> {
         for e in rd.flatten() {
             let p = e.path();
             let Ok(ft) = e.file_type() else { continue };
-            if ft.is_dir() {
+            // a symbolic link to a directory (the cross-device layout plants them as shard
+            // directories) is a directory, not a stray file
+            if ft.is_dir() || (ft.is_symlink() && p.is_dir()) {
                 walk(base, &p, out);
             } else {
                 out.push(p.strip_prefix(base).unwrap().to_string_lossy().to_string());
